@@ -936,6 +936,15 @@ func txnIterHandlerFunc(
 			return false, nil
 		}
 
+		if mc.isBuildInTxn(txn) {
+			// built-in transactions are made by the generator itself; a pooled call of one of these
+			// functions would put the function into the block twice and verifiers reject such a block
+			logging.Logger.Error("generate block - pooled call of a build-in function, removing it",
+				zap.String("txn", txn.Hash), zap.String("function_name", txn.FunctionName))
+			tii.invalidTxns = append(tii.invalidTxns, txn)
+			return true, nil
+		}
+
 		if txn.Value > config.MaxTokenSupply {
 			logging.Logger.Error("generate block, invalid transaction value",
 				zap.String("hash", txn.Hash),
